@@ -111,6 +111,13 @@ func NewSnapshotter(path string,
 	inCh := make(chan Event, eventChSize)
 	streamCh := make(chan Event, eventChSize)
 
+	// A compaction removes the old snapshot before it moves the new one into
+	// place. If the process died in between, only the (complete) temporary file
+	// is left: install it instead of starting from an empty snapshot.
+	if _, err := os.Stat(path); os.IsNotExist(err) {
+		_ = os.Rename(path+tmpExt, path)
+	}
+
 	// Try to open the file
 	fh, err := os.OpenFile(path, os.O_RDWR|os.O_APPEND|os.O_CREATE, 0644)
 	if err != nil {
